@@ -35,9 +35,14 @@ func escapeForms(sp string) []string {
 	return []string{sp, "a" + sp + "b", sp + sp, "a" + sp, sp + "b"}
 }
 
+// fieldBuilder writes a file with the format's real writer: an ordinary first record, then one record per
+// value with the named field holding that value, then an ordinary last record. It returns the file and the
+// expected items, or ok=false if a value is outside that field's domain.
+type fieldBuilder func(field string, values []string) (data []byte, want []obsItem, ok bool, fail string)
+
 // escapeSpellingsClause: build returns the written file and the expected items for the given field
 // holding value (with a further record behind it), or ok=false if the value is outside that field's domain.
-func escapeSpellingsClause(r *core.Run, format string, fields []string, build func(field, value string) (data []byte, want []obsItem, ok bool, fail string)) {
+func escapeSpellingsClause(r *core.Run, format string, fields []string, build fieldBuilder) {
 	core.Clause(r, "escape-spellings-as-data", core.Opts{Rule: "every text field holds text that looks like an encoded delimiter or control sequence in some other convention (" + fmt.Sprint(len(escapeSpellings)) + " spellings: percent-encoding, fmt verbs, backslash escapes, HTML entities, quoted-printable, caret notation, shell and template markers, quotes, invisible and ill-formed characters), alone, doubled and between letters: written with the real writer and read back unchanged, the next record included; non-trivial = all",
 		Bounds: fmt.Sprintf("%d spellings x 5 embeddings x fields %s, minus values outside a field's domain", len(escapeSpellings), strings.Join(fields, ", "))},
 		func(emit func(escapeCase) bool) {
@@ -52,7 +57,7 @@ func escapeSpellingsClause(r *core.Run, format string, fields []string, build fu
 			}
 		},
 		func(c escapeCase) core.Outcome {
-			data, want, ok, fail := build(c.Field, string(c.Value))
+			data, want, ok, fail := build(c.Field, []string{string(c.Value)})
 			if !ok {
 				return core.Outcome{Skip: true}
 			}
@@ -65,6 +70,62 @@ func escapeSpellingsClause(r *core.Run, format string, fields []string, build fu
 			}
 			if !sameShape(got, want) {
 				return core.Failf("%s: a record whose %s is %q (text %q) reads back as %s, written %s", format, c.Field, c.Value, trunc(string(data), 120), trunc(renderObs(got), 300), trunc(renderObs(want), 300))
+			}
+			return core.Outcome{Class: c.Field, Nontrivial: true, Evals: 2}
+		})
+}
+
+// Consecutive records whose fields are RELATIVES of each other: equal under case folding (ASCII and the
+// Unicode simple folds), equal up to a trailing blank or NUL, one a prefix of the other, equal as numbers,
+// equal after Unicode normalisation, equal. A reader that recognises "the same value as in the previous
+// record" (to share a string, to skip work) by anything but byte equality hands back the wrong one.
+
+type relativesCase struct {
+	Field  string   `json:"field"`
+	Values []core.S `json:"values_of_consecutive_records"`
+}
+
+var relativePairs = [][2]string{
+	{"chrX", "chrx"}, {"CHR1", "chr1"}, {"k", "\u212a"}, {"K", "\u212a"}, {"s", "\u017f"}, {"ss", "\u00df"}, {"i", "\u0130"}, {"I", "\u0131"}, {"\u03c3", "\u03c2"}, {"\u00e9", "\u00c9"},
+	{"a", "a "}, {" a", "a"}, {"a", "a\x00"}, {"a", "a\u00a0"}, {"chr1", "chr10"}, {"chr1", "chr1_random"}, {"ab", "a"}, {"a", "A"},
+	{"1", "01"}, {"1", "1.0"}, {"1", "+1"}, {"0", "-0"}, {"1e3", "1000"}, {"0x10", "16"},
+	{"\u00e9", "e\u0301"}, {"\u212b", "\u00c5"}, {"A", "\uff21"}, {"\ufb01", "fi"}, {"a\u200bb", "ab"}, {"\xff", "\ufffd"}, {"\xc3\x28", "\ufffd("},
+	{"same", "same"}, {"x", "y"},
+}
+
+func relativesClause(r *core.Run, format string, fields []string, build fieldBuilder) {
+	core.Clause(r, "neighbouring-records-with-related-fields", core.Opts{Rule: "consecutive records whose value in one field are relatives (" + fmt.Sprint(len(relativePairs)) + " pairs: equal under ASCII or Unicode case folding, up to a trailing blank / NUL / no-break space, prefix of each other, equal as numbers, equal after Unicode normalisation or replacement of ill-formed bytes, equal, unrelated) in the orders x y, y x, x y x, x x y, y y x y: every record reads back with its own value; non-trivial = all",
+		Bounds: fmt.Sprintf("%d pairs x 5 orders x fields %s, minus values outside a field's domain", len(relativePairs), strings.Join(fields, ", "))},
+		func(emit func(relativesCase) bool) {
+			for _, f := range fields {
+				for _, pr := range relativePairs {
+					x, y := core.S(pr[0]), core.S(pr[1])
+					for _, vs := range [][]core.S{{x, y}, {y, x}, {x, y, x}, {x, x, y}, {y, y, x, y}} {
+						if !emit(relativesCase{f, vs}) {
+							return
+						}
+					}
+				}
+			}
+		},
+		func(c relativesCase) core.Outcome {
+			vals := make([]string, len(c.Values))
+			for i, v := range c.Values {
+				vals[i] = string(v)
+			}
+			data, want, ok, fail := build(c.Field, vals)
+			if !ok {
+				return core.Outcome{Skip: true}
+			}
+			if fail != "" {
+				return core.Failf("%s %s = %q: %s", format, c.Field, vals, fail)
+			}
+			got, p, over := formatByName(format).Read(&sliceReader{data: data}, len(want)+8)
+			if p != "" || over {
+				return core.Failf("%s: %s = %q in consecutive records: panic %q / does not end %v", format, c.Field, vals, p, over)
+			}
+			if !sameShape(got, want) {
+				return core.Failf("%s: consecutive records whose %s is %q (text %q) read back as %s, written %s", format, c.Field, vals, trunc(string(data), 160), trunc(renderObs(got), 400), trunc(renderObs(want), 400))
 			}
 			return core.Outcome{Class: c.Field, Nontrivial: true, Evals: 2}
 		})
